@@ -241,6 +241,36 @@ def join_tokens(toks, rng=None, tight=False):
     return "".join(out)
 
 
+SPECIAL = set("+-*/^%&!=?:><|")
+
+def join_tokens_tightest(toks):
+    """No blank wherever two tokens can touch without merging: next to brackets, commas and semicolons, and between a
+    symbolic operator and an operand (`1+2`, `a not ==2`, `-x`). Never between two operators, next to a word operator,
+    or between a name and `(` that is not a call."""
+    def symbolic(t): return t != "" and all(ch in SPECIAL for ch in t)
+    def operand(t): return t != "" and not symbolic(t) and t not in DELIMS and t not in ("not", "in", "AND", "OR", "beginWith", "endWith")
+    out = []
+    for i, t in enumerate(toks):
+        if i:
+            prev = toks[i - 1]
+            glue = False
+            if prev in DELIMS or t in DELIMS:
+                glue = True
+                if t == "(" and prev not in DELIMS and not symbolic(prev):
+                    glue = bool(re.match(r"^[A-Za-z_.][A-Za-z0-9_.]*$", prev)) and prev not in ("not", "in", "AND", "OR", "beginWith", "endWith")
+                if (prev in ("not", "in", "AND", "OR", "beginWith", "endWith") and t not in (")", "]", "}", ",", ";")) or \
+                   (t in ("not", "in", "AND", "OR", "beginWith", "endWith") and prev not in ("(", "[", "{", ",", ";")):
+                    glue = prev in ("(", "[", "{", ",", ";") or t in (")", "]", "}", ",", ";")
+            elif symbolic(prev) and operand(t) and not t[0] in ".":
+                glue = True
+            elif operand(prev) and symbolic(t):
+                glue = True
+            if not glue:
+                out.append(" ")
+        out.append(t)
+    return "".join(out)
+
+
 # ---------------- random ASTs in the parser's range ----------------
 NAMES = ["a", "b", "c", "x1", "foo.bar", "_t", "é", "v_2"]
 FNAMES = ["f", "g", "max", "min", "sum", "h.i"]
@@ -310,7 +340,10 @@ def all_small_asts(table, ops3):
 
 # ---------------- character-level strings ----------------
 CHAR_ALPHABET = [" ", "\t", "\n", "(", ")", "[", "]", "{", "}", ",", ";", "0", "7", ".", "e", "+", "-", "<", "=", "!", "&",
-                 "?", ":", "\"", "'", "a", "n", "_", "é", "✓", "😀", "@", "|", "*", "t", "\x0c", "\u00a0", "\u2028", "\r"]
+                 "?", ":", "\"", "'", "a", "n", "_", "é", "✓", "😀", "@", "|", "*", "t", "\x0c", "\u00a0", "\u2028", "\r",
+                 # characters beyond U+00FF whose low byte is an ASCII blank, bracket, separator, digit, letter or quote (a
+                 # classifier that narrows `char` to a byte would confuse them)
+                 "\u2020", "\u0109", "\u010a", "\u0128", "\u0129", "\u015b", "\u015d", "\u012c", "\u013b", "\u0131", "\u0161", "\u0122", "\u012e"]
 
 def all_strings(alphabet, maxlen):
     for n in range(0, maxlen + 1):
